@@ -10,6 +10,8 @@ Shared   == [h \in H2 |-> {"qa"}]
 Separate == ("h1" :> {"qa"}) @@ ("h2" :> {"qb"})
 Multi    == ("h1" :> {"qa", "qb"}) @@ ("h2" :> {"qa"})
 
+OnlyH1   == ("h1" :> {"qa"}) @@ ("h2" :> {})
+
 Fn(a, b) == ("h1" :> a) @@ ("h2" :> b)
 
 \* a hook's settings: <<I, B>>, <<0, 1>> = no settings
@@ -24,9 +26,21 @@ CfgThorough == {Mk(s1, s2, qs) : s1 \in AllSettings, s2 \in AllSettings \cup {<<
 \* one hook with settings next to one without (vacuity runs with seeded wiring errors)
 CfgMut      == {Mk(<<2, 1>>, <<0, 1>>, Shared), Mk(<<3, 2>>, <<0, 1>>, Separate)}
 
-\* behaviour generation: the settings used on the real operator (B up to 3)
-CfgSimSharedA  == {Mk(<<2, 1>>, <<3, 2>>, Shared)}
-CfgSimSharedB  == {Mk(<<2, 3>>, <<0, 1>>, Shared)}
-CfgSimSeparate == {Mk(<<2, 1>>, <<3, 2>>, Separate)}
-CfgSimMulti    == {Mk(<<3, 1>>, <<2, 2>>, Multi)}
+\* history runs (clock, literal window formula): h1 observed, h2 the environment
+CfgHistQuick == {Mk(s1, s2, Shared) : s1 \in {<<2, 1>>, <<3, 2>>}, s2 \in {<<0, 1>>}}
+CfgHist      == {Mk(s1, s2, qs) : s1 \in AllSettings, s2 \in {<<0, 1>>, <<2, 1>>}, qs \in {Shared}}
+               \cup {Mk(s1, <<2, 1>>, Multi) : s1 \in {<<2, 1>>, <<3, 2>>}}
+\* monitor = window formula on arbitrary start sequences of one hook
+CfgEquiv     == {Mk(s1, <<0, 1>>, OnlyH1) : s1 \in AllSettings}
+
+\* quick: h1 over all four settings, h2 without settings or <<2,1>>, three topologies
+CfgQuick3   == CfgQuick \cup {Mk(s1, s2, Multi) : s1 \in AllSettings, s2 \in {<<0, 1>>, <<2, 1>>}}
+
+\* behaviour generation: the settings used on the real operator (B up to 3), bursts (W = 6 arrivals per other
+\* step, any number per tick) and steady streams (at most one arrival per tick)
+Shape(c, w, pt) == [I |-> c.I, B |-> c.B, QS |-> c.QS, W |-> w, PT |-> pt]
+SimBase == {Mk(<<2, 1>>, <<3, 2>>, Shared), Mk(<<2, 3>>, <<0, 1>>, Shared), Mk(<<3, 2>>, <<2, 3>>, Shared),
+            Mk(<<2, 1>>, <<3, 2>>, Separate), Mk(<<2, 2>>, <<0, 1>>, Separate),
+            Mk(<<3, 1>>, <<2, 2>>, Multi), Mk(<<3, 2>>, <<0, 1>>, Multi)}
+CfgSim  == {Shape(c, 6, 0) : c \in SimBase} \cup {Shape(c, 1, 1) : c \in SimBase} \cup {Shape(c, 3, 3) : c \in SimBase}
 =============================================================================
